@@ -28,9 +28,11 @@ import (
 	"os/exec"
 	"path/filepath"
 	"regexp"
+	"runtime"
 	"sort"
 	"strconv"
 	"strings"
+	"sync"
 	"syscall"
 
 	"github.com/syndtr/goleveldb/leveldb/storage"
@@ -539,6 +541,9 @@ type obsOp struct {
 
 // fsChild is the traced process: for each scenario OpenFile, marker, the call, marker, Close.
 func fsChild(spec string) {
+	if os.Getenv("C18_FS_LOCKTHREAD") != "" {
+		runtime.LockOSThread() // strace's inject=...:when=N counts per thread
+	}
 	b, err := os.ReadFile(spec)
 	if err != nil {
 		os.Exit(3)
@@ -814,7 +819,43 @@ func straceScenarios(root string) []straceScen {
 	return out
 }
 
-func (k *fsK) strace() {
+// crashScen is a directed scenario whose every intermediate state is examined: a switch m0 -> m1 (kind 0) or the
+// repair of a read-write GetMeta (kind 1) whose answer must be m0 or m1.
+type crashScen struct {
+	kind   int
+	m0, m1 int64
+	m      map[string]string
+	pre    []dirEnt
+	dir    string
+	ops    []obsOp // observed with strace (nil: not observed)
+}
+
+func crashScenarios(root string) []*crashScen {
+	M := manifestName
+	scs := []*crashScen{
+		{kind: 0, m0: 1, m1: 2, m: map[string]string{"LOCK": "", "LOG": "S", M(1): "m", M(2): "m", "CURRENT": M(1) + "\n"}},
+		{kind: 0, m0: 4, m1: 5, m: map[string]string{"LOCK": "", "LOG": "S", M(4): "m", M(5): "m", "CURRENT": M(4) + "\n", "CURRENT.bak": M(3) + "\n", "CURRENT.4": M(4) + "\n", "CURRENT.2": "MANIF"}},
+		{kind: 0, m0: 7, m1: 1000000, m: map[string]string{"LOCK": "", "LOG": "S", M(7): "m", M(1000000): "m", "000008.ldb": "t", "CURRENT": M(7) + "\n", "CURRENT.bak": "", "CURRENT.1000000": "MANIFEST-10"}},
+		// the repair inside a read-write GetMeta
+		{kind: 1, m0: 4, m1: 4, m: map[string]string{"LOCK": "", "LOG": "S", M(4): "m", "CURRENT": "MANIF", "CURRENT.bak": M(4) + "\n"}},                        // torn CURRENT, good backup
+		{kind: 1, m0: 4, m1: 4, m: map[string]string{"LOCK": "", "LOG": "S", M(4): "m", "CURRENT": M(6) + "\n", "CURRENT.bak": M(4) + "\n", "CURRENT.3": M(3) + "\n"}}, // dangling CURRENT, good backup
+		{kind: 1, m0: 1, m1: 2, m: map[string]string{"LOCK": "", "LOG": "S", M(1): "m", M(2): "m", "CURRENT": M(1) + "\n", "CURRENT.2": M(2) + "\n"}},              // pending newer: the switch is replayed
+		{kind: 1, m0: 1, m1: 2, m: map[string]string{"LOCK": "", "LOG": "S", M(1): "m", M(2): "m", "CURRENT": "", "CURRENT.bak": M(1) + "\n", "CURRENT.2": M(2) + "\n"}}, // pending newer over an empty CURRENT
+		{kind: 1, m0: 4, m1: 4, m: map[string]string{"LOCK": "", "LOG": "S", M(4): "m", "CURRENT.bak": M(4) + "\n"}},                                             // only the backup
+	}
+	for i, s := range scs {
+		for n, c := range s.m {
+			s.pre = append(s.pre, dirEnt{n, mustHex(c)})
+		}
+		sort.Slice(s.pre, func(a, b int) bool { return s.pre[a].Name < s.pre[b].Name })
+		s.dir = filepath.Join(root, fmt.Sprintf("cr%02d", i))
+	}
+	return scs
+}
+
+const straceSyscalls = "trace=open,openat,creat,close,write,pwrite64,fsync,fdatasync,rename,renameat,renameat2,unlink,unlinkat,ftruncate,truncate,mkdir,mkdirat,link,linkat,symlink,symlinkat,newfstatat,stat,statx"
+
+func (k *fsK) strace(crash []*crashScen) {
 	exe, err := os.Executable()
 	if err != nil {
 		k.notes = append(k.notes, "strace: cannot find the harness executable: "+err.Error())
@@ -826,6 +867,10 @@ func (k *fsK) strace() {
 		return
 	}
 	scen := straceScenarios(k.root)
+	nplain := len(scen)
+	for _, c := range crash {
+		scen = append(scen, straceScen{Dir: c.dir, Kind: c.kind, Num: c.m1, Pre: c.pre})
+	}
 	for _, s := range scen {
 		if err := writeDir(s.Dir, s.Pre); err != nil {
 			k.fail("cannot build a directory: %v", err)
@@ -836,9 +881,7 @@ func (k *fsK) strace() {
 	b, _ := json.Marshal(scen)
 	os.WriteFile(spec, b, 0o644)
 	out := filepath.Join(k.root, "strace.txt")
-	cmd := exec.Command("strace", "-f", "-xx", "-s", "4096", "-o", out,
-		"-e", "trace=open,openat,creat,close,write,pwrite64,fsync,fdatasync,rename,renameat,renameat2,unlink,unlinkat,ftruncate,truncate,mkdir,mkdirat,link,linkat,symlink,symlinkat,newfstatat,stat,statx",
-		exe)
+	cmd := exec.Command("strace", "-f", "-xx", "-s", "4096", "-o", out, "-e", straceSyscalls, exe)
 	cmd.Env = append(os.Environ(), "C18_FS_CHILD="+spec, "GOMAXPROCS=2")
 	if msg, err := cmd.CombinedOutput(); err != nil {
 		k.notes = append(k.notes, fmt.Sprintf("strace could not trace the child (%v: %.200s): the operation order of setMeta is not observed in this run", err, msg))
@@ -856,6 +899,9 @@ func (k *fsK) strace() {
 			k.fail("strace: no marker for scenario %d", i)
 			continue
 		}
+		if i >= nplain {
+			crash[i-nplain].ops = ops
+		}
 		items := make([]string, len(ops))
 		for j, o := range ops {
 			items[j] = fmt.Sprintf("KOp %d \"%s\" \"%s\"", o.Code, o.A, o.B)
@@ -864,6 +910,108 @@ func (k *fsK) strace() {
 			map[string]interface{}{"strace": s, "ops": ops})
 		k.stats["fsk_strace_cases"]++
 		k.stats["fsk_strace_ops"] += len(ops)
+	}
+}
+
+// killPoints runs the real call of every crash scenario again and again under strace, killing the process
+// (SIGKILL injected before the n-th system call that touches the CURRENT family or the directory, n = 1, 2, ...)
+// and then asks the real GetMeta what the directory it left behind answers.  This is a crash of the process,
+// not of the machine: nothing that was issued is lost; the states with lost effects are built by crashStates.
+func (k *fsK) killPoints(crash []*crashScen, thorough bool) {
+	exe, err := os.Executable()
+	if err != nil || k.stats["fsk_strace_unavailable"] > 0 {
+		return
+	}
+	type outc struct {
+		fails []string
+		cases []kcase
+		n     int
+	}
+	res := make([]outc, len(crash))
+	var wg sync.WaitGroup
+	for ci, c := range crash {
+		wg.Add(1)
+		go func(ci int, c *crashScen) {
+			defer wg.Done()
+			o := &res[ci]
+			// strace counts the invocations of every system call separately
+			for _, sc := range []string{"openat", "write", "fsync", "renameat", "unlinkat"} {
+				for n := 1; n <= 30; n++ {
+					dir := filepath.Join(k.root, fmt.Sprintf("kill%02d_%s_%03d", ci, sc, n))
+					if err := writeDir(dir, c.pre); err != nil {
+						o.fails = append(o.fails, "cannot build a directory: "+err.Error())
+						return
+					}
+					spec := dir + ".json"
+					b, _ := json.Marshal([]straceScen{{Dir: dir, Kind: c.kind, Num: c.m1}})
+					os.WriteFile(spec, b, 0o644)
+					args := []string{"-f", "-o", "/dev/null", "-P", dir}
+					names := map[string]bool{"CURRENT": true, "CURRENT.bak": true, fmt.Sprintf("CURRENT.%d", c.m1): true, fmt.Sprintf("CURRENT.%d", c.m0): true}
+					for _, e := range c.pre {
+						if strings.HasPrefix(e.Name, "CURRENT") {
+							names[e.Name] = true
+						}
+					}
+					for nm := range names {
+						args = append(args, "-P", filepath.Join(dir, nm))
+					}
+					args = append(args, "-e", "trace="+sc, "-e", fmt.Sprintf("inject=%s:signal=SIGKILL:when=%d", sc, n), exe)
+					cmd := exec.Command("strace", args...)
+					cmd.Env = append(os.Environ(), "C18_FS_CHILD="+spec, "C18_FS_LOCKTHREAD=1", "GOMAXPROCS=1")
+					_, rerr := cmd.CombinedOutput()
+					os.Remove(spec)
+					if rerr == nil {
+						// the call completed: there is no n-th such system call; the directory must answer the new manifest
+						if st, err := storage.OpenFile(dir, true); err == nil {
+							fd, gerr := st.GetMeta()
+							st.Close()
+							if gerr != nil || fd.Type != storage.TypeManifest || fd.Num != c.m1 {
+								left, _ := listDir(dir)
+								o.fails = append(o.fails, fmt.Sprintf("after the completed call (kind %d) on { %s} the directory { %s} answers (%v, %v), not %s", c.kind, showDir(c.pre), showDir(left), fd, gerr, manifestName(c.m1)))
+							}
+						}
+						os.RemoveAll(dir)
+						break
+					}
+					o.n++
+					left, _ := listDir(dir)
+					st, err := storage.OpenFile(dir, true)
+					if err != nil {
+						o.fails = append(o.fails, fmt.Sprintf("OpenFile after a kill: %v", err))
+						os.RemoveAll(dir)
+						continue
+					}
+					fd, gerr := st.GetMeta()
+					st.Close()
+					after, _ := listDir(dir)
+					cls := metaClass(gerr)
+					what := map[int]string{0: "SetMeta", 1: "a read-write GetMeta (its repair)"}[c.kind]
+					if cls != 0 || fd.Type != storage.TypeManifest || (fd.Num != c.m0 && fd.Num != c.m1) {
+						o.fails = append(o.fails, fmt.Sprintf("crash inside %s: the process was killed entering its %s no. %d on the CURRENT family of a directory { %s}; it left { %s} and GetMeta answers (%v, %v): neither %s nor %s",
+							what, sc, n, showDir(c.pre), showDir(left), fd, gerr, manifestName(c.m0), manifestName(c.m1)))
+					}
+					ty, num := 0, int64(0)
+					if cls == 0 {
+						ty, num = ftCode(fd.Type), fd.Num
+					}
+					if cls != 3 {
+						o.cases = append(o.cases, kcase{coq: fmt.Sprintf("KDir true %s %d %d %s %s", coqDir(left), cls, ty, coqZ(num), coqDir(after)),
+							js: map[string]interface{}{"killed_entering": fmt.Sprintf("%s #%d", sc, n), "scenario": ci, "left": left, "res": cls, "fd": fd.String()}})
+					}
+					os.RemoveAll(dir)
+				}
+			}
+		}(ci, c)
+	}
+	wg.Wait()
+	for _, o := range res {
+		for _, f := range o.fails {
+			k.fail("%s", f)
+		}
+		for _, c := range o.cases {
+			k.add(c.coq, c.js)
+		}
+		k.stats["fsk_kill_points"] += o.n
 	}
 }
 
@@ -1019,28 +1167,30 @@ func setMetaOpsGo(v []dirEnt, num int64) []gOp {
 	return sw
 }
 
-func (k *fsK) crashStates(thorough bool) {
+func opsOfObs(o []obsOp) []gOp {
+	var l []gOp
+	for _, x := range o {
+		l = append(l, gOp{x.Code, unhexs(x.A), unhexs(x.B)})
+	}
+	return l
+}
+
+func (k *fsK) crashStates(scs []*crashScen, thorough bool) {
 	M := manifestName
-	type scn struct {
-		m0, m1 int64
-		m      map[string]string
-	}
-	scs := []scn{
-		{1, 2, map[string]string{"LOCK": "", "LOG": "S", M(1): "m", M(2): "m", "CURRENT": M(1) + "\n"}},
-		{4, 5, map[string]string{"LOCK": "", "LOG": "S", M(4): "m", M(5): "m", "CURRENT": M(4) + "\n", "CURRENT.bak": M(3) + "\n", "CURRENT.4": M(4) + "\n", "CURRENT.2": "MANIF"}},
-		{7, 1000000, map[string]string{"LOCK": "", "LOG": "S", M(7): "m", M(1000000): "m", "000008.ldb": "t", "CURRENT": M(7) + "\n", "CURRENT.bak": "", "CURRENT.1000000": "MANIFEST-10"}},
-	}
-	budget := 60
+	budget := 40
 	if thorough {
 		budget = 1500
 	}
 	for _, s := range scs {
-		var pre []dirEnt
-		for n, c := range s.m {
-			pre = append(pre, dirEnt{n, mustHex(c)})
+		pre := s.pre
+		var ops []gOp
+		if s.ops != nil {
+			ops = opsOfObs(s.ops) // the operations the real call issued (strace)
+		} else if s.kind == 0 {
+			ops = setMetaOpsGo(pre, s.m1)
+		} else {
+			continue
 		}
-		sort.Slice(pre, func(i, j int) bool { return pre[i].Name < pre[j].Name })
-		ops := setMetaOpsGo(pre, s.m1)
 		type cand struct {
 			k    int
 			mask []bool
@@ -1053,6 +1203,9 @@ func (k *fsK) crashStates(thorough bool) {
 				fs.apply(o)
 			}
 			np := len(fs.pdir)
+			if np > 6 {
+				np = 6
+			}
 			// inodes that are not synced
 			var dirty []int
 			for id, x := range fs.inos {
@@ -1075,9 +1228,14 @@ func (k *fsK) crashStates(thorough bool) {
 					if len(x.v) > 0 {
 						cuts[len(x.v)-1] = true
 					}
+					var cl []int
+					for c := range cuts {
+						cl = append(cl, c)
+					}
+					sort.Ints(cl)
 					for _, base := range sels {
 						nx = append(nx, base)
-						for c := range cuts {
+						for _, c := range cl {
 							mm := map[int]int{}
 							for a, b := range base {
 								mm[a] = b
@@ -1146,9 +1304,13 @@ func (k *fsK) crashStates(thorough bool) {
 			fd, gerr := st.GetMeta()
 			st.Close()
 			cls := metaClass(gerr)
+			if cls == 0 && fd.Type == storage.TypeManifest && c.k == len(ops) && fd.Num != s.m1 {
+				k.fail("after the COMPLETED %s (%s -> %s) from { %s} a crash image { %s} answers %v, not the new manifest",
+					map[int]string{0: "manifest switch", 1: "repair of a read-write GetMeta"}[s.kind], M(s.m0), M(s.m1), showDir(pre), showDir(img), fd)
+			}
 			if cls != 0 || fd.Type != storage.TypeManifest || (fd.Num != s.m0 && fd.Num != s.m1) {
-				k.fail("crash during the manifest switch %s -> %s: after %d of the %d file-system operations of setMeta, with the unsynced effects %v / %v lost or kept, the directory is { %s} and GetMeta answers (%v, %v): neither the old nor the new manifest",
-					M(s.m0), M(s.m1), c.k, len(ops), c.mask, c.sel, showDir(img), fd, gerr)
+				k.fail("crash during %s (%s -> %s) from { %s}: after %d of its %d file-system operations, with the unsynced directory operations kept as %v and the unsynced files cut at %v, the directory is { %s} and GetMeta answers (%v, %v): neither the old nor the new manifest",
+					map[int]string{0: "the manifest switch", 1: "the repair of a read-write GetMeta"}[s.kind], M(s.m0), M(s.m1), showDir(pre), c.k, len(ops), c.mask, c.sel, showDir(img), fd, gerr)
 			}
 			// also read-write: the answer must be the same set, and (P) the repaired directory answers the same again
 			st2, err := storage.OpenFile(dir, false)
@@ -1178,7 +1340,7 @@ func (k *fsK) crashStates(thorough bool) {
 			for j, b := range c.mask {
 				maskItems[j] = vlib.CoqBool(b)
 			}
-			k.add(fmt.Sprintf("KCrash %s %s 1 %s %d [%s] [%s] %s %d %d %s", coqDir(pre), coqZ(s.m0), coqZ(s.m1), c.k, strings.Join(maskItems, "; "),
+			k.add(fmt.Sprintf("KCrash %d %s %s 1 %s %d [%s] [%s] %s %d %d %s", s.kind, coqDir(pre), coqZ(s.m0), coqZ(s.m1), c.k, strings.Join(maskItems, "; "),
 				strings.Join(selItems, "; "), coqDir(img), cls, ty, coqZ(num)),
 				map[string]interface{}{"crash": map[string]interface{}{"m0": s.m0, "m1": s.m1, "k": c.k, "mask": c.mask, "sel": fmt.Sprint(c.sel), "img": img, "res": cls, "fd": fd.String()}})
 			k.stats["fsk_crash_cases"]++
@@ -1379,8 +1541,10 @@ func fsModelChecks(r *vlib.RNG, base string, thorough bool) (cases []kcase, fail
 	k := &fsK{r: r, root: root, stats: map[string]int{}}
 	k.names(thorough)
 	k.dirs(thorough)
-	k.strace()
-	k.crashStates(thorough)
+	crash := crashScenarios(root)
+	k.strace(crash)
+	k.crashStates(crash, thorough)
+	k.killPoints(crash, thorough)
 	k.life(thorough)
 	return k.cases, k.fails, k.stats, k.notes
 }
